@@ -166,10 +166,24 @@ func clip(v uint64) int {
 }
 
 // readAll opens the reader on b and reads with call kind mode until the first error.
-func readAll(sc *Scen, b []byte, mode string, maxPk int) (pk []obs, end string, link int) {
+// retained is a packet exactly as a copying read call handed it back: the caller owns the data slice, the CaptureInfo
+// (including the AncillaryData slice) and the option struct, and may keep all of them while it goes on reading.
+type retained struct {
+	data []byte
+	ci   gopacket.CaptureInfo
+	o    *pcapgo.NgPacketOptions
+}
+
+// readAll opens the reader on b (pcapng: WantMixedLinkType = mix) and reads with call kind mode until the first error.
+// Zero-copy calls are observed at once (the next call invalidates them - that is their contract).  Copying calls are
+// RETAINED and observed only after the reader has reached its end: whatever a later call overwrites in an earlier
+// result (data bytes, AncillaryData, comments, hash and verdict payloads) shows up in the observation.
+func readAll(sc *Scen, b []byte, mode string, mix bool, maxPk int) (pk []obs, end string, link int) {
 	link = -1
+	copying := mode == "copy" || mode == "optc"
+	var kept []retained
 	msg, _, p := vh.Guard(func() {
-		rd, err := open(sc.Fmt, bytes.NewReader(b), pcapgo.NgReaderOptions{WantMixedLinkType: sc.Mixed})
+		rd, err := open(sc.Fmt, bytes.NewReader(b), pcapgo.NgReaderOptions{WantMixedLinkType: mix})
 		if err != nil {
 			end = ekind(err)
 			return
@@ -181,7 +195,7 @@ func readAll(sc *Scen, b []byte, mode string, maxPk int) (pk []obs, end string, 
 				end = ekind(err) // data returned together with an error is not a packet
 				return
 			}
-			if len(pk) > maxPk {
+			if len(pk)+len(kept) > maxPk {
 				end = "none"
 				return
 			}
@@ -190,9 +204,16 @@ func readAll(sc *Scen, b []byte, mode string, maxPk int) (pk []obs, end string, 
 				oc := o
 				op = &oc
 			}
-			pk = append(pk, observe(data, ci, op))
+			if copying {
+				kept = append(kept, retained{data, ci, op})
+			} else {
+				pk = append(pk, observe(data, ci, op))
+			}
 		}
 	})
+	for i := range kept {
+		pk = append(pk, observe(kept[i].data, kept[i].ci, kept[i].o))
+	}
 	if p {
 		_ = msg
 		end = "panic"
@@ -261,13 +282,21 @@ func runRT(tr *evlist, sci int, sc *Scen, tmp string) {
 	if sc.Fmt == "ng" {
 		modes = []string{"copy", "zero", "optc", "optz"}
 	}
-	for _, m := range modes {
-		pk, end, link := readAll(sc, f, m, np+4)
-		evs := []vh.M{}
-		for i := range pk {
-			evs = append(evs, pk[i].event(m == "optc" || m == "optz"))
+	// pcapng files are read with WantMixedLinkType off and on (off: packets of interfaces whose link type differs from
+	// the first interface's are skipped, as libpcap does; on: the link type travels in ci.AncillaryData[0])
+	mixes := []bool{false}
+	if sc.Fmt == "ng" {
+		mixes = []bool{false, true}
+	}
+	for _, mix := range mixes {
+		for _, m := range modes {
+			pk, end, link := readAll(sc, f, m, mix, np+4)
+			evs := []vh.M{}
+			for i := range pk {
+				evs = append(evs, pk[i].event(m == "optc" || m == "optz"))
+			}
+			tr.Emit(vh.M{"op": "read", "sc": sci, "mode": m, "mix": mix, "pk": evs, "end": end, "link": link})
 		}
-		tr.Emit(vh.M{"op": "read", "sc": sci, "mode": m, "pk": evs, "end": end, "link": link})
 	}
 	if sc.Fmt == "ng" {
 		tr.Emit(metaEvent(sc, f, sci))
@@ -283,7 +312,7 @@ func runRT(tr *evlist, sci int, sc *Scen, tmp string) {
 			tr.Emit(vh.M{"op": "cuts", "sc": sci, "mode": m, "lo": lo, "hi": hi, "k": k0, "end": end0, "tds": tds0})
 		}
 		for cut := 0; cut <= len(f); cut++ {
-			pk, end, _ := readAll(sc, f[:cut:cut], m, np+4)
+			pk, end, _ := readAll(sc, f[:cut:cut], m, sc.Fmt == "ng" && sc.Mixed, np+4)
 			tds := make([]string, len(pk))
 			for i := range pk {
 				tds[i] = pk[i].td
